@@ -385,6 +385,9 @@ func vtC03Gen(r *rand.Rand, i int) (string, []int64) {
 			decl[0] = false
 			decl[1] = true
 		}
+		if r.Intn(60) == 0 { // degenerate: a quota whose max declares nothing
+			decl = [3]bool{}
+		}
 		if len(qs) > 0 && r.Intn(5) < 3 {
 			p := qs[r.Intn(len(qs))]
 			depth := 1
